@@ -148,11 +148,14 @@ def _sub_evaluate(self, t, **kwargs):
 _SUB = {}
 
 
-def sub_class():
-    if 'c' not in _SUB:
-        _SUB['c'] = type('Sub', (fsic.BaseModel,), dict(ENDOGENOUS=['Y'], EXOGENOUS=['G'], NAMES=['Y', 'G'],
+def sub_class(extra=()):
+    """Submodel class Y, G plus `extra` exogenous variables (underscore twins / member-like names)."""
+    key = tuple(extra)
+    if key not in _SUB:
+        names = ['Y', 'G'] + list(extra)
+        _SUB[key] = type('Sub', (fsic.BaseModel,), dict(ENDOGENOUS=['Y'], EXOGENOUS=names[1:], NAMES=names,
                                                          CHECK=['Y'], LAGS=1, LEADS=0, _evaluate=_sub_evaluate))
-    return _SUB['c']
+    return _SUB[key]
 
 
 def build_pair(case):
@@ -172,7 +175,7 @@ def build_pair(case):
         if kind == 'model':
             return cls(list(span), strict=strict, **kw)
         if kind == 'linker':
-            Sub = sub_class()
+            Sub = sub_class(case.get('sub_extra', ()))
             sm = dict(map(tuple, case['sub_m']))
             SubA = type('SubAliased', (AliasMixin, Sub), {'ALIASES': dict(sm)}) if aliased else Sub
             subs = {'a': SubA(list(span), G=1.0), 'b': Sub(list(span), G=2.5)}
@@ -564,7 +567,11 @@ def gen_fail_case(rng, teligible=None):
             'exo': exo, 'm': items, 'pref': pref, 'span': span, 'strict': strict, 'kwargs': kwargs,
             'teligible': teligible}
     if kind == 'linker':
-        case['sub_m'] = b.random_alias_map(rng, ['Y', 'G'], ['out', 'gov', 'k9'], ['undefined_x'], max_n=3, self_p=0.0)
+        r = rng.random()
+        case['sub_extra'] = ['_Y'] if r < 0.25 else ['_G', 'y'] if r < 0.35 else \
+            rng.sample([x for x in usable_member_names() if x not in ('status', 'iterations')], 1) if r < 0.6 else []
+        case['sub_m'] = b.random_alias_map(rng, ['Y', 'G'] + case['sub_extra'], ['out', 'gov', 'k9'], ['undefined_x'],
+                                           max_n=3, self_p=0.0)
     case['ops'] = gen_fail_ops(rng, case, rng.randrange(4, 13))
     return case
 
@@ -575,7 +582,7 @@ def gen_fail_ops(rng, case, count):
     n = len(span)
     variables = case['endo'] + case['exo']
     maps = [dict(map(tuple, case['m']))] + ([dict(map(tuple, case['sub_m']))] if kind == 'linker' else [])
-    varsets = [variables] + ([['Y', 'G']] if kind == 'linker' else [])
+    varsets = [variables] + ([['Y', 'G'] + list(case.get('sub_extra', []))] if kind == 'linker' else [])
 
     def ints(k):
         return [rng.randrange(1, 99) for _ in range(k)]
@@ -790,7 +797,11 @@ def gen_fail_ops(rng, case, count):
             elif r < 0.9:
                 op = {'k': 'solve', 'names': [], 'args': {'max_iter': 1, 'failures': 'raise'}}    # NonConvergenceError
             else:
-                op = {'k': 'solve', 'names': [], 'args': {'errors': 'raise'}}                     # after a NaN: SolutionError
+                # a NaN in a checked variable, then errors='raise': SolutionError (periods before it are solved)
+                if on == 0 and kind != 'container':
+                    ops.append({'k': 'inplace', 'names': [rng.choice(case['endo'])], 'i': n - 1, 'j': n, 'v': {'nan': 1},
+                                'on': 0, 'group': 'ok'})
+                op = {'k': 'solve', 'names': [], 'args': {'errors': 'raise'}}
         elif group == 'values-bad':
             op = {'k': 'values_set', 'names': [], 'v': rng.choice([{'shape': [1, 1]}, {'shape': [n, 1]}, 'abc', 3])}
         elif group == 'misc-read':
